@@ -2,6 +2,7 @@
 pub mod eng;
 pub mod fp;
 pub mod gen;
+pub mod mutate;
 pub mod props;
 pub mod refimpl;
 pub mod runner;
